@@ -253,6 +253,9 @@ func principalOps(lit *ast.FuncLit) map[string][]ast.Node {
 				walk(x.X)
 				return false
 			case *ast.BinaryExpr:
+				if (x.Op == token.EQL || x.Op == token.NEQ) && strings.HasSuffix(exprString(x.X), ".Type()") {
+					return true // comparison of reflect types (`if v.Type() != rt { v = convert(v, rt) }`), not an operation on the operands
+				}
 				ops[x.Op.String()] = append(ops[x.Op.String()], x)
 			case *ast.AssignStmt:
 				if x.Tok != token.ASSIGN && x.Tok != token.DEFINE {
